@@ -143,7 +143,9 @@ AllTests == {"node()", "*", "a", "b", "c", "p:a", "p:*", "q:a", "q:*", "*:a", "t
              "document-node()", "document-node(element(a))",
              "processing-instruction('p')", "processing-instruction(p)", "processing-instruction(zz)",
              \* XPath 3.0: braced URI literals and the namespace-node() kind test
-             "Q{urn:x}a", "Q{urn:x}*", "Q{}a", "namespace-node()"}
+             "Q{urn:x}a", "Q{urn:x}*", "Q{}a", "namespace-node()",
+             \* unprefixed names under a DEFAULT ELEMENT NAMESPACE urn:x of the static context (XPath 2.0+): written a / b
+             "dns:a", "dns:b"}
 DocElem == CHOOSE n \in 1..N : parent[n] = 0 /\ kind[n] \in ElemKinds
 Match(ax, t, n) ==
   LET k == KindOf(n) IN
@@ -173,6 +175,9 @@ Match(ax, t, n) ==
     [] t = "Q{urn:x}*"    -> IF ax = "attribute" THEN k = "xn" ELSE k = "en"
     [] t = "Q{}a"         -> IF ax = "attribute" THEN k = "xa" ELSE k = "ea"
     [] t = "namespace-node()" -> FALSE      \* namespace nodes are not in the tree universe (see NsStep)
+    \* the default element namespace applies to element names only: an unprefixed attribute name is in no namespace
+    [] t = "dns:a"        -> IF ax = "attribute" THEN k = "xa" ELSE k = "en"
+    [] t = "dns:b"        -> FALSE                \* no element {urn:x}b and no attribute b in the universe
 
 StepSet(ax, t, x) == {m \in AxisSet(ax, x) : Match(ax, t, m)}
 
